@@ -1763,7 +1763,8 @@ pub fn check_c07(ix: &Ix<'_>, v: &mut Vec<Violation>) {
             || ix.sent.iter().any(|s| s.conn == conn && s.seq <= *sq && matches!(s.pkt, Some(Pkt::Disconnect(_))))
             || ix.ops.iter().any(|o| o.start <= *sq && (o.brief.starts_with("Close") || o.brief.starts_with("ForceClose")))
             || ix.eps.iter().any(|e| e.conn == conn && e.seq <= *sq && matches!(e.pkt, Pkt::Disconnect(_)));
-        let app_err_cause = ix.gates.iter().any(|g| {
+        let app_err_cause = out.hist.iter().any(|e| e.seq <= *sq && matches!(e.ev, Ev::Fault { kind: "svc_ready_err", .. }))
+            || ix.gates.iter().any(|g| {
             g.conn == conn
                 && g.kind != GateKind::Control
                 && match &g.exit {
@@ -2562,12 +2563,24 @@ pub fn check_c19(ix: &Ix<'_>, v: &mut Vec<Violation>) {
         let probes: Vec<&Sent> = ix
             .sent
             .iter()
-            .filter(|s| s.conn == conn && matches!(&s.pkt, Some(Pkt::Publish(p)) if p.topic.starts_with("t/6") || p.topic.starts_with("t/7") || p.topic.starts_with("t/8") || p.topic.starts_with("t/9")))
+            .filter(|s| {
+                s.conn == conn
+                    && match &s.pkt {
+                        Some(Pkt::Publish(p)) => p.topic.starts_with("t/6") || p.topic.starts_with("t/7") || p.topic.starts_with("t/8") || p.topic.starts_with("t/9"),
+                        // the size limit is also probed with a packet that is not a PUBLISH
+                        Some(Pkt::Subscribe(x)) => x.filters.first().is_some_and(|f| f.0.starts_with("t/6")),
+                        _ => false,
+                    }
+            })
             .collect();
         if probes.is_empty() || probes.iter().any(|s| s.delivered.is_none()) {
             return;
         }
-        let handled = |s: &Sent| matches!(&s.pkt, Some(Pkt::Publish(p)) if ix.pub_gates(conn).any(|(_, seen)| seen.topic == p.topic || (p.topic.is_empty())));
+        let handled = |s: &Sent| match &s.pkt {
+            Some(Pkt::Publish(p)) => ix.pub_gates(conn).any(|(_, seen)| seen.topic == p.topic || (p.topic.is_empty())),
+            Some(Pkt::Subscribe(x)) => ix.gates.iter().any(|g| g.conn == conn && matches!(&g.desc, GateDesc::Proto { brief, .. } if brief.starts_with("SUBSCRIBE") && x.filters.first().is_some_and(|f| brief.contains(&f.0[..f.0.len().min(12)])))),
+            _ => false,
+        };
         let n_within = out.plan.tags.iter().find_map(|t| t.strip_prefix("probes-within:").and_then(|n| n.parse::<usize>().ok())).unwrap_or(probes.len() - 1);
         let (within, beyond) = probes.split_at(n_within.min(probes.len()));
         for s in within {
